@@ -74,6 +74,12 @@ def evalS (envT envM : List (List (Core α))) : SE α → α
   | .mul x y => evalS envT envM x * evalS envT envM y
   | .const c => c
 
+/-- programs: operands scaled by a scalar expression are defined one after the other (`T_new := T_i * s`, with `s` any scalar expression over
+    the operands defined so far — the `x * torchtt.dot(x, y)` pattern in which the scalar factor itself depends on the cores), then a scalar head -/
+def evalProg (envT envM : List (List (Core α))) : List (Nat × SE α) → SE α → α
+  | [], e => evalS envT envM e
+  | (i, s) :: rest, e => evalProg (envT ++ [smul (envT.getD i []) (evalS envT envM s)]) envM rest e
+
 /-! ### dense semantics of the shape-preserving fragment (fixed mode list `ns`) -/
 
 /-- dense arrays of a fixed shape are functions on multi-indices -/
@@ -108,5 +114,13 @@ def denseS (ns : List Nat) (dT : Nat → Dense α) (dM : Nat → List Nat → Li
   | .mul x y => match denseS ns dT dM x, denseS ns dT dM y with
     | some u, some v => some (u * v) | _, _ => none
   | .const c => some c
+
+/-- dense programs: the new operand is the dense operand `i` times the dense value of the scalar expression; operands are numbered `0..k-1` -/
+def denseProg (ns : List Nat) (k : Nat) (dT : Nat → Dense α) (dM : Nat → List Nat → List Nat → α) : List (Nat × SE α) → SE α → Option α
+  | [], e => denseS ns dT dM e
+  | (i, s) :: rest, e =>
+    match denseS ns dT dM s with
+    | some c => denseProg ns (k + 1) (fun j => if j = k then (fun is => dT i is * c) else dT j) dM rest e
+    | none => none
 
 end TT
